@@ -77,12 +77,109 @@ def internal(ctx, variant, name, gen_args, chunk):
     return len(lines), bad, lines[:1]
 
 
+def f32_term(bits):
+    """the Gallina term (CV.SpreadFloat.f32) of a binary32 bit pattern (finite values only)"""
+    sign, ex, frac = bits >> 31, (bits >> 23) & 255, bits & 0x7fffff
+    if ex == 0 and frac == 0:
+        return "(B754_zero %s : f32)" % ("true" if sign else "false")
+    m, e = (frac, -149) if ex == 0 else (frac | 0x800000, ex - 150)
+    return "(f_of_me (%d) (%d))" % (-m if sign else m, e)
+
+
+def costs_tie(ctx, variant, seed, count):
+    """c07mag M4: costs() of the real FLOAT constructor of TransportationProblem (costsFromIntegers) against the Flocq model
+    CostsFloat.costs_from_floats evaluated inside Coq by vm_compute, integer for integer; and the statement of
+    c07_costs_from_floats_defined (0 <= k, 4 n k <= INT_MAX + 2 n) on the C++ output of every in-domain matrix"""
+    h = common.build_harness("c07mag", variant)
+    lines = common.corpus("C07", "M4 ") + common.harness_gen(h, [seed, count, 4])
+    lines = lines[:100]
+    impl, _, _ = common.run_both([h, "run"], None, lines, chunk=100, timeout=240)
+    info = {"cases": len(lines), "matrices_compared_integer_for_integer": 0, "entries": 0, "in_domain": 0, "nonzero_entries": 0,
+            "sinks": sorted({int(l.split()[1]) for l in lines})}
+    bad, diffs, exprs, ok = [], [], [], []
+    for l, i in zip(lines, impl):
+        t = l.split()
+        ns, nr, bits = int(t[1]), int(t[2]), [int(x) for x in t[3:]]
+        if not i.startswith("OK"):
+            bad.append((l, i[-400:], "[%s build, harness c07mag] the float constructor of TransportationProblem died / threw: %s" % (variant, i[-200:])))
+            continue
+        got = [int(x) for x in i.split()[1:]]
+        if all(not (b >> 31) or b == 0x80000000 for b in bits):
+            info["in_domain"] += 1
+            if any(k < 0 or 4 * ns * k > 2147483647 + 2 * ns for k in got):
+                bad.append((l, i[-400:], "[%s build] costsFromIntegers: a scaled cost of a finite non-negative matrix is outside 0 <= k, 4 n k <= INT_MAX + 2 n" % variant))
+        exprs.append("costs_from_floats [%s]" % "; ".join(
+            "[%s]" % "; ".join(f32_term(b) for b in bits[j * nr:(j + 1) * nr]) for j in range(ns)))
+        ok.append((l, got, ns, nr))
+    res = common.vm_eval("C07f", "From Coq Require Import List ZArith. From Flocq Require Import Core BinarySingleNaN. Import ListNotations. "
+                                 "Require Import CV.SpreadFloat CV.CostsFloat. Local Open Scope Z_scope.", exprs, timeout=600) if exprs else []
+    if res is None:
+        diffs.append(("vm_compute evaluation of CostsFloat.costs_from_floats failed", "-", ""))
+        res = []
+    for (l, got, ns, nr), r in zip(ok, res):
+        mod = [int(x) for x in re.findall(r"-?\d+", r)] if r.startswith("Some") else None
+        if mod == got:
+            info["matrices_compared_integer_for_integer"] += 1
+            info["entries"] += len(got); info["nonzero_entries"] += sum(1 for k in got if k)
+        else:
+            diffs.append(("costs() of the float constructor differs from the Flocq model CostsFloat.costs_from_floats", l, "C++ %s / model %s" % (got[:24], r[:200])))
+    return info, bad, diffs
+
+
+def spec_bits(tok):
+    """'S754_finite false 8388611 (-2)' etc. (as printed by Coq) -> IEEE-754 binary32 bit pattern (None for NaN)"""
+    t = tok.replace("SpecFloat.", "").replace("(", " ").replace(")", " ").split()
+    sign = 1 << 31 if len(t) > 1 and t[1] == "true" else 0
+    if t[0] == "S754_zero":
+        return sign
+    if t[0] == "S754_infinity":
+        return sign | (0xFF << 23)
+    if t[0] == "S754_nan":
+        return None
+    m, e = int(t[2]), int(t[3])
+    if m < (1 << 23):
+        return sign | m if e == -149 else None
+    return sign | ((e + 150) << 23) | (m - (1 << 23))
+
+
+def producer_tie(ctx, variant, seed, count):
+    """c07mag M5: coloquinte::norm (all six LegalizationModel values), the expression of DensityLegalizer::distance (harness replica
+    of one line) and HierarchicalDensityPlacement::binX against CostsFloat.norm_f / distance_f / bin_center_f, bit for bit"""
+    h = common.build_harness("c07mag", variant)
+    lines = common.harness_gen(h, [seed, count, 5])[:100]
+    impl, _, _ = common.run_both([h, "run"], None, lines, chunk=100, timeout=240)
+    models = ["L1", "L2", "LInf", "L1Squared", "L2Squared", "LInfSquared"]
+    info = {"cases": len(lines), "values_compared_bit_for_bit": 0, "models": sorted({models[int(l.split()[1])] for l in lines})}
+    bad, diffs, exprs, ok = [], [], [], []
+    for l, i in zip(lines, impl):
+        t = [int(x) for x in l.split()[1:]]
+        if not i.startswith("OK") or i.split()[-1] != "1":
+            bad.append((l, i[-400:], "[%s build, harness c07mag] norm / binX died: %s" % (variant, i[-200:])))
+            continue
+        m, x, y, q = models[t[0]], f32_term(t[1]), f32_term(t[2]), f32_term(t[3])
+        exprs.append("(B2SF (norm_f %s %s %s), B2SF (distance_f %s %s %s %s), B2SF (bin_center_f (%d) (%d)))" % (x, y, m, q, m, x, y, t[4], t[5]))
+        ok.append((l, [int(v) for v in i.split()[1:4]]))
+    res = common.vm_eval("C07p", "From Coq Require Import List ZArith. From Flocq Require Import Core BinarySingleNaN. Import ListNotations. "
+                                 "Require Import CV.SpreadFloat CV.CostsFloat. Local Open Scope Z_scope.", exprs, timeout=600) if exprs else []
+    if res is None:
+        diffs.append(("vm_compute evaluation of CostsFloat.norm_f / distance_f / bin_center_f failed", "-", ""))
+        res = []
+    for (l, got), r in zip(ok, res):
+        mod = [spec_bits(x) for x in re.findall(r"S754_\w+(?:\s+(?:true|false))?(?:\s+\d+\s+\(?-?\d+\)?)?", r)]
+        if mod == got:
+            info["values_compared_bit_for_bit"] += 3
+        else:
+            diffs.append(("norm / distance expression / binX of the compiled code differ from the Flocq model (CostsFloat.norm_f, distance_f, bin_center_f)",
+                          l, "C++ bits %s / model bits %s" % (got, mod)))
+    return info, bad, diffs
+
+
 def run(ctx):
     proof_ok, proof = common.proof_status(ctx, "C07")
     s = ctx.seed
     variants = ["asan"] if ctx.quick else ["asan", "asan-ndebug", "plain"]
     nflow = 2000 if ctx.quick else 30000
-    total, bad, samples, per = 0, [], [], {}
+    total, bad, samples, per, tdiffs = 0, [], [], {}, []
     for v in variants:
         f = flow(ctx, v, nflow, s + 70)
         total += f["cases"]; bad += f["bad"]; samples += f["lines"][:2]
@@ -103,11 +200,20 @@ def run(ctx):
             total += n; bad += b; per[v][name + "_cases"] = n
             if v == variants[0]:
                 samples += [x[:300] for x in smp]
+        if v == variants[0]:
+            # float side of costsFromIntegers: bit-exact tie of the Flocq model (<= 100 matrices per run)
+            tie, b, tdiffs = costs_tie(ctx, v, s + 86, 96)
+            total += tie["cases"]; bad += b; per[v]["costs_float_tie"] = tie
+            ptie, b, pdiffs = producer_tie(ctx, v, s + 87, 60)
+            total += ptie["cases"]; bad += b; per[v]["costs_producer_tie"] = ptie; tdiffs += pdiffs
     for b in bad[:3]:
         l, i, why = b[:3]
         ctx.violation("/repo violates C07: " + why, {"case": l, "implementation_output": i, "why": why,
                                                      "parameters": (b[3] if len(b) > 3 and b[3] else "library defaults of the effort (capped maxNbSteps 12, nbPasses 2)"),
                                                      "format": "FL: harness/flow.cpp; LG: legal.cpp; DP: detailed.cpp; DO: dopt.cpp; DM: dplace.cpp; RL: rowleg.cpp; M1/M2/M3: c07mag.cpp"})
+    for d in tdiffs[:2]:
+        ctx.violation("C07: " + d[0], {"broken": "correspondence CostsFloat.v <-> transportation.cpp costsFromIntegers / utils/norm.hpp / density_grid.hpp binX",
+                                       "case": d[1], "detail": d[2]}, found_input=False)
     if not bad and not proof_ok:
         ctx.violation("proof obligations of Properties_C07.v do not check", {"broken": "Properties_C07.v", "detail": proof}, found_input=False)
     cov = dict(proof)
@@ -140,7 +246,7 @@ def replay(ctx, path):
     r = json.load(open(path))["replay"]
     case = r["case"]
     name = {"FL": "flow", "LG": "legal", "DP": "detailed", "DO": "dopt", "DM": "dplace", "RL": "rowleg",
-            "M1": "c07mag", "M2": "c07mag", "M3": "c07mag"}[case[:2]]
+            "M1": "c07mag", "M2": "c07mag", "M3": "c07mag", "M4": "c07mag", "M5": "c07mag"}[case[:2]]
     m = re.search(r"\[(\S+) build", r.get("why", ""))
     variant = m.group(1) if m else "asan"
     h = common.build_harness(name, variant)
